@@ -20,10 +20,16 @@ type c09Params struct {
 	Slow    bool // server reads slowly: 64-byte pipe drained line by line by a server task
 	ChanCap int  // 0 real (32) | 1 | 2
 	Overlap bool // senders start while the registration lines are still in flight
+	Pings   int  // server PINGs arriving meanwhile (answered by the built-in handler)
+	HPong   bool // the foreground handler sends a PONG of its own between its first and second line
 }
 
 func (p c09Params) name() string {
-	return fmt.Sprintf("sendorder/senders=%dx%d/events=%dx%d/slow=%v/cap=%d/overlap=%v", p.Senders, p.Lines, p.Events, p.HLines, p.Slow, p.ChanCap, p.Overlap)
+	n := fmt.Sprintf("sendorder/senders=%dx%d/events=%dx%d/slow=%v/cap=%d/overlap=%v", p.Senders, p.Lines, p.Events, p.HLines, p.Slow, p.ChanCap, p.Overlap)
+	if p.Pings > 0 || p.HPong {
+		n += fmt.Sprintf("/pings=%d/hpong=%v", p.Pings, p.HPong)
+	}
+	return n
 }
 
 // every line carries bytes that make "byte for byte" observable: format verbs, control bytes, quotes,
@@ -42,10 +48,13 @@ func c09Scenario(p c09Params) *explore.Scenario {
 	sc := &explore.Scenario{
 		Family: "sendorder",
 		Name:   p.name(),
-		Params: map[string]interface{}{"senders": p.Senders, "lines": p.Lines, "events": p.Events, "hlines": p.HLines, "slow": p.Slow, "chancap": p.ChanCap, "overlap": p.Overlap},
+		Params: map[string]interface{}{"senders": p.Senders, "lines": p.Lines, "events": p.Events, "hlines": p.HLines, "slow": p.Slow, "chancap": p.ChanCap, "overlap": p.Overlap, "pings": p.Pings, "hpong": p.HPong},
 		Opt:    vx.Options{ChanCap: p.ChanCap, MaxSteps: 40000},
 	}
-	total := 2 + p.Senders*p.Lines + p.Events*p.HLines
+	total := 2 + p.Senders*p.Lines + p.Events*p.HLines + p.Pings
+	if p.HPong {
+		total += p.Events
+	}
 	sc.Main = func(env *vx.Env) {
 		c := NewClient("me", nil)
 		c.HandleFunc("PRIVMSG", func(conn *client.Conn, line *client.Line) {
@@ -54,6 +63,9 @@ func c09Scenario(p c09Params) *explore.Scenario {
 					conn.Privmsg("#c", c09Text("h-"+line.Text(), i))
 				} else {
 					conn.Raw("PRIVMSG #c :" + c09Text("h-"+line.Text(), i))
+				}
+				if i == 0 && p.HPong {
+					conn.Pong("hp-" + line.Text())
 				}
 			}
 		})
@@ -100,6 +112,13 @@ func c09Scenario(p c09Params) *explore.Scenario {
 				}
 			})
 		}
+		if p.Pings > 0 {
+			env.Go("server-pings", func() {
+				for i := 0; i < p.Pings; i++ {
+					vc.SendLines(fmt.Sprintf("PING :p%d", i))
+				}
+			})
+		}
 		done.WaitFor(p.Senders)
 		vx.Quiesce()
 		vx.Observe("ev", fmt.Sprintf("end connected=%v", c.Connected()))
@@ -131,6 +150,17 @@ func c09Scenario(p c09Params) *explore.Scenario {
 			for i := 0; i < p.HLines; i++ {
 				want["PRIVMSG #c :"+c09Text(fmt.Sprintf("h-e%d", e), i)]++
 			}
+		}
+		for i := 0; i < p.Pings; i++ {
+			want[fmt.Sprintf("PONG :p%d", i)]++
+		}
+		if p.HPong {
+			for e := 0; e < p.Events; e++ {
+				want[fmt.Sprintf("PONG :hp-e%d", e)]++
+			}
+		}
+		for i, l := range lines {
+			lines[i] = NormLine(l)
 		}
 		got := map[string]int{}
 		for _, l := range lines {
@@ -167,6 +197,19 @@ func c09Scenario(p c09Params) *explore.Scenario {
 				bad("order", fmt.Sprintf("lines of %s are out of order on the wire (%d after %d)", who, i, prev))
 			}
 			last[who] = i
+		}
+		// the handler's own PONG sits between its first and second line
+		if p.HPong && p.HLines >= 2 {
+			for e := 0; e < p.Events; e++ {
+				pos := map[string]int{}
+				for j, l := range lines {
+					pos[l] = j + 1
+				}
+				a, b, c := pos["PRIVMSG #c :"+c09Text(fmt.Sprintf("h-e%d", e), 0)], pos[fmt.Sprintf("PONG :hp-e%d", e)], pos["PRIVMSG #c :"+c09Text(fmt.Sprintf("h-e%d", e), 1)]
+				if a > 0 && b > 0 && c > 0 && !(a < b && b < c) {
+					bad("order", fmt.Sprintf("the handler for event e%d issued line 0, a PONG, line 1 in this order but the wire has them at positions %d, %d, %d", e, a, b, c))
+				}
+			}
 		}
 		// registration order (same goroutine: the caller of Connect)
 		ni, ui := -1, -1
@@ -232,6 +275,13 @@ func init() {
 					add(c09Params{Senders: 1, Lines: 2, Events: 2, HLines: 2, Slow: slow, ChanCap: cap}, bs, []int{1, 2, 3}, 30, false)
 				}
 				add(c09Params{Senders: 2, Lines: 2, ChanCap: cap, Overlap: true}, bs, []int{1, 2, 3}, 30, false)
+			}
+			// server PINGs answered by the built-in handler while others are sending; a handler mixing lines and a PONG
+			for _, cap := range []int{0, 1} {
+				for _, slow := range []bool{false, true} {
+					add(c09Params{Senders: 2, Lines: 2, Slow: slow, ChanCap: cap, Pings: 2}, bs, []int{1, 2, 3}, 30, false)
+					add(c09Params{Senders: 1, Lines: 2, Events: 2, HLines: 2, Slow: slow, ChanCap: cap, Pings: 1, HPong: true}, bs, []int{1, 2, 3}, 30, false)
+				}
 			}
 			// many lines through the real queue: senders really block on the 32-slot queue when the server is slow
 			add(c09Params{Senders: 2, Lines: 40, Slow: true}, []explore.Budget{{0, 0}, {1, 0}}, []int{1, 2, 3}, 60, false)
